@@ -1,6 +1,8 @@
 import Driver.Proto
 import GMModel.SysGro
 import GMModel.SystemRec
+import GMModel.SysGroBytes
+import Driver.Gro
 /-
   Driver.SysGro — ops for `SystemGro` (C12) and `System` (C11).
 
@@ -15,6 +17,12 @@ import GMModel.SystemRec
                cursor (pos cur)
      residue : len d…
      result  : (`E <err>` | `R` list of residues) pos cur
+
+  request  `sysgrob <bytes:hex> <nops> <op>…`   — the raw bytes of the .gro file (`sysGroOfBytes`)
+  response `ok G <err>`                       (`GroFile(path)` raised)
+         | `ok E <err>`                       (`SystemGro.__init__` raised)
+         | `ok I <title:hex> <natoms> <box: 9 pynum> <recs: list of rrec (Driver.Gro)> <dump> <nops> <result>…`
+     (dump / result as for `sysgro`; a residue lists the positions of its atoms in `recs`)
 
   request  `system <records> <ntops> <top>… <nops> <sop>…`
      top     : name:str natoms (name:str resname:str resid:int)…
@@ -136,6 +144,15 @@ def handle : Handler
       match r with
       | .error e => pure s!"ok {wErr e}"
       | .ok sg => pure s!"ok I {dumpSG sg c} {runOps f sg ⟨c, []⟩ ops}"
+  | "sysgrob" => some do
+      let bytes ← DGro.rdBytes
+      let ops ← Rd.listOf rdOp
+      Rd.done
+      match sysGroOfBytes bytes with
+      | .error (.gro e) => pure s!"ok G {e.name}"
+      | .error (.view e) => pure s!"ok {wErr e}"
+      | .ok v =>
+        pure s!"ok I {DGro.wrBytes v.commentLine} {v.nAtoms} {DGro.wrRBox v.boxMatrix} {Wr.list DGro.wrRRec v.data.recs} {dumpSG v.sg v.cur} {runOps v.file v.sg ⟨v.cur, []⟩ ops}"
   | "system" => some do
       let recs ← rdRecords
       let tops ← Rd.listOf rdTop
